@@ -1,44 +1,62 @@
-(* C19 — the last-business-day schedule. Statements only; proofs in Proofs/. *)
+(* C19 — the last-business-day schedule. Statements only; proofs in Proofs/. Every statement is for EVERY
+   timestamp / day number in Z (no range bound): the two kernel-evaluated sweeps of Proofs/ScheduleSweep.v
+   cover one full period of the Gregorian calendar (400 years = 146 097 days = 20 871 weeks) and
+   Proofs/ScheduleProofs.v lifts them to all of Z by periodicity. *)
 From Coq Require Import ZArith List Bool.
 From Alator Require Import Model.Schedule Proofs.ScheduleSweep Proofs.ScheduleProofs.
 Local Open Scope Z_scope.
 
-(* The answer depends only on the calendar date, not on the time of day: every timestamp,
-   unbounded. *)
+(* The answer depends only on the calendar date, not on the time of day: every timestamp. *)
 Theorem c19_date_only : forall t t' : Z,
   day_of_ts t = day_of_ts t' -> lbd_should_trade t = lbd_should_trade t'.
 Proof. exact lbd_date_only. Qed.
 
-(* For every timestamp from 1970-01-01T00:00:00 up to 2199-12-31T23:59:59 the schedule answers
-   true iff the date is Monday–Friday and every later day of the same calendar month falls on a
-   weekend.  (Bound stated: the equivalence is a complete sweep of the 84 006 days.) *)
+(* For EVERY timestamp (before 1970 included: floor division) the schedule answers true iff the date is
+   Monday–Friday and every later day of the same calendar month falls on a weekend. *)
 Theorem c19_spec : forall t : Z,
-  0 <= t < supported_days * 86400 ->
   let d := day_of_ts t in
   lbd_should_trade t = true <->
   (is_weekend d = false /\
    forall k, 1 <= k <= days_in_month (year_of d) (month_of d) - dom_of d ->
              is_weekend (d + k) = true).
 Proof.
-  intros t Ht d. rewrite (lbd_spec t Ht). exact (spec_last_business_day_iff d).
+  intros t d. rewrite (lbd_spec t). exact (spec_last_business_day_iff d).
 Qed.
 
-(* The calendar used on both sides is the Gregorian calendar, day by day from 1970-01-01. *)
+(* The calendar used on both sides is the proleptic Gregorian calendar on every day: day 0 is 1970-01-01 and
+   each day's (year, month, day) is the successor — month lengths, leap years every 4th year except
+   centuries not divisible by 400 — of the previous day's; every 146 097 days the same dates and weekdays
+   recur 400 years on. *)
+Theorem c19_calendar_epoch : civil_from_days 0 = (1970, 1, 1).
+Proof. exact civil_epoch. Qed.
+
+Theorem c19_calendar_next : forall d : Z, civil_from_days (d + 1) = next_ymd (civil_from_days d).
+Proof. exact civil_next. Qed.
+
 Theorem c19_calendar : forall d : Z,
-  0 <= d < supported_days ->
-  civil_from_days d = Nat.iter (Z.to_nat d) next_ymd (1970, 1, 1).
+  0 <= d -> civil_from_days d = Nat.iter (Z.to_nat d) next_ymd (1970, 1, 1).
 Proof. exact civil_is_gregorian. Qed.
+
+Theorem c19_calendar_period : forall d : Z,
+  civil_from_days (d + cycle_days) = (let '(y, m, dd) := civil_from_days d in (y + 400, m, dd)) /\
+  weekday_of (d + cycle_days) = weekday_of d.
+Proof. intros d. split; [apply civil_shift | apply weekday_shift]. Qed.
 
 Theorem c19_default_true : forall t : Z, default_should_trade t = true.
 Proof. reflexivity. Qed.
 
-(* Non-vacuity: 2021-09-30 17:00 (a Thursday, last weekday of the month) and 2021-10-31 (a Sunday) *)
+(* Non-vacuity: 2021-09-30 17:00 (a Thursday, last weekday of the month), 2021-10-31 (a Sunday), and a
+   pre-1970 timestamp that is not at midnight: Friday 1969-11-28 09:00 is a last business day. *)
 Example c19_examples :
   lbd_should_trade 1633021200 = true /\ lbd_should_trade 1635670800 = false /\
-  civil_from_days (day_of_ts 1633021200) = (2021, 9, 30).
+  civil_from_days (day_of_ts 1633021200) = (2021, 9, 30) /\
+  lbd_should_trade (-2905200) = true /\ civil_from_days (day_of_ts (-2905200)) = (1969, 11, 28).
 Proof. vm_compute. repeat split. Qed.
 
 Print Assumptions c19_date_only.
 Print Assumptions c19_spec.
+Print Assumptions c19_calendar_epoch.
+Print Assumptions c19_calendar_next.
 Print Assumptions c19_calendar.
+Print Assumptions c19_calendar_period.
 Print Assumptions c19_default_true.
